@@ -323,7 +323,9 @@ func model(c, p []int, limit float64) (float64, bool, bool) {
 			L = -L
 		}
 		d := float64(L) - R
-		if math.Abs(d) <= 1e-9*math.Max(1, R) {
+		if math.IsInf(R, 1) {
+			// no finite deviation exceeds an infinite allowance
+		} else if math.Abs(d) <= 1e-9*math.Max(1, R) {
 			border = true
 		} else if d > 0 {
 			return 0, true, false
@@ -516,6 +518,26 @@ func runVariance() {
 					l.Count("evaluations", 1)
 					if g != 0 {
 						chk.Violation("C20/PatternMatchVariance/exact-multiple", fmt.Sprintf("score(%d*p)=%v for p=%v", k, g, p), varCase{ck, p, lim})
+					}
+				}
+			}
+			// extreme limits and magnitudes: "no per-run limit" (+Inf, MaxFloat64, 1e19, 1e15), a zero
+			// limit, and counters scaled by 10^4 and 10^6; the model compares integers with limit*total
+			for _, lim := range []float64{0, 1e-300, 1e15, 1e19, math.MaxFloat64, math.Inf(1)} {
+				for _, k := range []int{1, 7, 10000, 1000000} {
+					for v := 0; v < 3; v++ {
+						ck := make([]int, n)
+						for x := range p {
+							ck[x] = p[x] * k
+						}
+						switch v {
+						case 1:
+							ck[0] += k
+							ck[n-1] += k / 2
+						case 2:
+							ck[n/2] = 0
+						}
+						checkVar(l, ck, p, lim, pats[i].table)
 					}
 				}
 			}
